@@ -77,6 +77,15 @@ def mutants(file):
                 depth_doc = False
         if 'substrate_fixed_verif' in l:
             skip.add(i); skip.add(i + 1)
+    # lines inside multi-line string literals (the doc-example templates of the `comment!` macros) are documentation, not code
+    in_str = False
+    for i, l in enumerate(lines):
+        if in_str:
+            skip.add(i)
+        q = len(re.findall(r'(?<!\\)"', re.sub(r"'\\?\"'", '', l.split('//')[0] if not in_str else l)))
+        if q % 2 == 1:
+            in_str = not in_str
+            skip.add(i)
     for i in executable_lines(path):
         if i in skip:
             continue
